@@ -98,10 +98,20 @@ structure Env where
   proofHash : Proof → Bytes
   /-- `PublicKey.VerifyBytes` of the (abstract) signature scheme, key given in hex -/
   verify : String → Bytes → Bytes → Bool
-  /-- the session nodes for this relay's header: cache or `NewSession` (C33), or its error -/
-  session : Except (String × Nat) (List (Option Bytes))
+  /-- the servicer's session cache entry for this relay's header (filled by earlier relays, by
+  `HandleDispatch` and by `HandleChallenge`), if any -/
+  sessionCache : Option (List (Option Bytes))
+  /-- what `NewSession` (C33) generates for the header, or its error -/
+  sessionGen : Except (String × Nat) (List (Option Bytes))
   /-- `ctx.PrevCtx(sessionEnd)` works when the session is over -/
   sessionEndCtxOk : Bool
+
+/-- `GetSession` hit, else `NewSession`: the session the validation works with.  It is validated
+(`Session.Validate`: this servicer ∈ session nodes) on **every** relay, cached or not. -/
+def Env.session (E : Env) : Except (String × Nat) (List (Option Bytes)) :=
+  match E.sessionCache with
+  | some nodes => .ok nodes
+  | none => E.sessionGen
 
 def hexDecode (s : String) : Option Bytes := Bytes.ofHexChars s.toList
 
@@ -218,7 +228,7 @@ def evidenceChecks (E : Env) (max : Int) : Option Fail :=
 /-- Session from the cache or `NewSession` (with session rollover the end-of-session context is
 fetched first; its failure is an internal error since fix b757cb3), then `Session.Validate`. -/
 def sessionStage (E : Env) (p : Proof) (app : App) (count sbhArg : Int) : Option Fail :=
-  if E.height > sbhArg + E.bps - 1 ∧ !E.sessionEndCtxOk then some (.err "sdk" 1)
+  if E.sessionCache.isNone ∧ E.height > sbhArg + E.bps - 1 ∧ !E.sessionEndCtxOk then some (.err "sdk" 1)
   else match E.session with
   | .error (sp, c) => some (.err sp c)
   | .ok nodes => sessionValidate E p app nodes count
